@@ -127,6 +127,8 @@ def run_tlc(name, module, cfg_text, workers=8, timeout=900, simulate=None, depth
     cmd = ["java", "-XX:+UseParallelGC", "-Xmx" + xmx]
     if java_opts:
         cmd += java_opts
+    if not any(o.startswith("-Xss") for o in (java_opts or [])):
+        cmd.append("-Xss256m")       # the reference evaluators recurse deeply (a StackOverflowError is a tool error, not a verdict)
     cmd += ["-cp", TLA_CP, "tlc2.TLC", "-workers", str(workers), "-metadir", os.path.join(d, "meta"),
             "-cleanup", "-noGenerateSpecTE", "-config", cfg]
     if coverage:
